@@ -45,7 +45,8 @@ struct Case
   int first = 1;  // argument of the FIRST initialisation: may be <= 0
   std::vector<Loop> firstLoops;
   std::vector<Step> steps;
-  auto tie() { return std::tie(first, firstLoops, steps); }
+  std::vector<Loop> preLoops;  // parallel_for calls made BEFORE the first initTaskingSystem (backends start lazily)
+  auto tie() { return std::tie(first, firstLoops, steps, preLoops); }
 };
 
 static void burn(int us)
@@ -113,6 +114,16 @@ static std::string childBody(const Case &c, bool &exercised)
   if (numTaskingThreads() != 0) {
     err << "numTaskingThreads() before any initialisation is " << numTaskingThreads() << ", expected 0";
     return err.str();
+  }
+  if (!c.preLoops.empty()) {
+    // using the tasking system is not initialising it: the library starts its back end lazily and privately
+    bool dummy = false;
+    runLoops(c.preLoops, dummy, 1 << 20);
+    if (numTaskingThreads() != 0) {
+      err << "after " << c.preLoops.size() << " parallel_for call(s) but before any initTaskingSystem(), numTaskingThreads() is " << numTaskingThreads()
+          << ", expected 0";
+      return err.str();
+    }
   }
   const int hw = (int)std::thread::hardware_concurrency();
   const int online = (int)sysconf(_SC_NPROCESSORS_ONLN);
@@ -185,6 +196,8 @@ static void run_case(const Case &c, pbt::Ctx &ctx)
     ctx.label("first-init-nonpositive");
   if (c.steps.size() >= 2)
     ctx.label("reinit>=2");
+  if (!c.preLoops.empty())
+    ctx.label("loops-before-first-init");
 }
 
 static rc::Gen<Case> genCase()
@@ -197,7 +210,7 @@ static rc::Gen<Case> genCase()
   auto n = gen::weightedOneOf<int>({{3, pbt::range<int>(1, 8)}, {2, pbt::range<int>(1, 2 * hw)}});
   auto step = gen::build<Step>(gen::set(&Step::n, n), gen::set(&Step::loops, loops));
   return gen::build<Case>(gen::set(&Case::first, gen::weightedOneOf<int>({{2, gen::element<int>(-7, -1, 0)}, {1, gen::just(1)}, {3, n}})), gen::set(&Case::firstLoops, loops),
-      gen::set(&Case::steps, pbt::vec(step, 4)));
+      gen::set(&Case::steps, pbt::vec(step, 4)), gen::set(&Case::preLoops, gen::weightedOneOf<std::vector<Loop>>({{2, gen::just(std::vector<Loop>())}, {1, loops}})));
 }
 
 static void register_properties()
